@@ -34,9 +34,18 @@ FUNCS = [
     ("leak", "src/boxed.rs", None, "box_leak", []),
     ("drop", "src/boxed.rs", "Drop for Box<'a, T>", "box_drop", []),
     ("downcast", "src/boxed.rs", "impl<'a> Box<'a, dyn Any>", "box_downcast", ["(tag target : Nat)"]),
+    ("downcast", "src/boxed.rs", "impl<'a> Box<'a, dyn Any + Send>", "box_downcast_send", ["(tag target : Nat)"]),
+    ("from", "src/boxed.rs", "From<Box<'a, T>> for Pin<Box<'a, T>>", "box_pin_from", []),
+    ("new_in", "src/boxed.rs", None, "box_new_in", []),
+    ("pin_in", "src/boxed.rs", None, "box_pin_in", []),
     ("from", "src/boxed.rs", "From<Box<'a, [T; N]>> for Box<'a, [T]>", "box_arr_to_slice", ["(N : Nat)"]),
     ("try_from", "src/boxed.rs", "TryFrom<Box<'a, [T]>> for Box<'a, [T; N]>", "box_slice_to_arr", ["(N : Nat)"]),
     ("into_boxed_slice", "src/collections/vec.rs", None, "vec_into_boxed_slice", []),
+    ("from_iter_in", "src/boxed.rs", "impl<'a, A> Box<'a, [A]>", "box_from_iter_in", []),
+    ("from", "src/collections/vec.rs", "From<Vec<'bump, T>> for crate::boxed::Box<'bump, [T]>", "vec_into_box_from", []),
+    ("into_bump_slice", "src/collections/vec.rs", None, "vec_into_bump_slice", []),
+    ("into_bump_slice_mut", "src/collections/vec.rs", None, "vec_into_bump_slice_mut", []),
+    ("drop", "src/collections/vec.rs", "Drop for Vec<'bump, T>", "vec_drop", []),
 ]
 LEAN_OF = {"into_raw": "box_into_raw", "from_raw": "box_from_raw"}
 
@@ -54,7 +63,7 @@ class T:
         r = self.sig["ret"].replace(" ", "")
         if r.startswith("Result<"):
             return "(Except (List Bx.Cell) (List Bx.Cell))"
-        if r in ("()", ""):
+        if r in ("()", "") or self.name == "drop":
             return "Unit"
         return "(List Bx.Cell)"
 
@@ -64,6 +73,17 @@ class T:
         for f in frames:          # innermost continuation = oldest frame; newest is dropped first
             out = f"(RsB.scopeEnd pa {f} fx fun fx =>\n{out})"
         return out
+
+    def moved_frame(self, arg, env_, fr):
+        """a by-value use of a held frame: returns (lean name, frames without it)"""
+        if arg[0] != "path" or len(arg[1]) != 1 or arg[1][0] not in env_ or env_[arg[1][0]][1] != FRAME:
+            raise Untranslatable("by-value argument that is not a held handle")
+        ln = env_[arg[1][0]][0]
+        if ln not in fr:
+            raise Untranslatable(f"use of the moved handle {arg[1][0]}")
+        env2 = dict(env_)
+        del env2[arg[1][0]]
+        return ln, env2, [x for x in fr if x != ln]
 
     def E(self, e, env, frames, k):
         kind = e[0]
@@ -95,6 +115,34 @@ class T:
             raise Untranslatable(f"field .{e[2]}")
         if kind == "mcall":
             recv, name, args = e[1], e[2], e[3]
+            if name == "alloc" and len(args) == 1 and recv[0] == "path" and env.get(recv[1][0], (None, None))[1] == "bump":
+                # `a.alloc(x)`: the value moves into the arena; the reference to it is what a `Box` wraps
+                ln, env2, fr2 = self.moved_frame(args[0], env, frames)
+                r = self.fresh("r")
+                return f"(RsB.bind (RsB.alloc {ln} fx) fun fx {r} =>\n{k(r, CELLS, env2, fr2)})"
+            if name == "extend" and len(args) == 1 and recv[0] == "path" and env.get(recv[1][0], (None, None))[1] == FRAME:
+                # `vec.extend(iter)`: the items are moved to the end of the vector (a panicking iterator is outside this model)
+                def ke(t, ty, env_, fr):
+                    if ty != CELLS:
+                        raise Untranslatable("extend by a non-sequence")
+                    old = env_[recv[1][0]][0]
+                    ln = self.fresh(recv[1][0])
+                    e3 = dict(env_)
+                    e3[recv[1][0]] = (ln, FRAME)
+                    f3 = [ln if x == old else x for x in fr]
+                    return f"let {ln} := RsB.vecExtend {old} {t};\n{k('()', UNIT, e3, f3)}"
+                return self.E(args[0], env, frames, ke)
+            if name == "into_boxed_slice" and not args:
+                ln, env2, fr2 = self.moved_frame(recv, env, frames)
+                r = self.fresh("r")
+                return f"(RsB.bind (Gen.Fn.vec_into_boxed_slice pa {ln}.cells fx) fun fx {r} =>\n{k(r, CELLS, env2, fr2)})"
+            if name == "into" and not args and self.sig["ret"].replace(" ", "").startswith("Pin<Box<"):
+                def ki(t, ty, env_, fr):
+                    if ty != CELLS:
+                        raise Untranslatable(".into() of a non-box")
+                    r = self.fresh("r")
+                    return f"(RsB.bind (Gen.Fn.box_pin_from pa {t} fx) fun fx {r} =>\n{k(r, CELLS, env_, fr)})"
+                return self.E(recv, env, frames, ki)
 
             def kr(t, ty, env_, fr):
                 if name in ("deref_mut", "deref") and not args and ty == FRAME:
@@ -123,16 +171,7 @@ class T:
                 raise Untranslatable("call of a non-path")
             segs = f[1]
 
-            def moved_frame(arg, env_, fr):
-                """a by-value use of a held frame: returns (lean name, frames without it)"""
-                if arg[0] != "path" or len(arg[1]) != 1 or arg[1][0] not in env_ or env_[arg[1][0]][1] != FRAME:
-                    raise Untranslatable("by-value argument that is not a held handle")
-                ln = env_[arg[1][0]][0]
-                if ln not in fr:
-                    raise Untranslatable(f"use of the moved handle {arg[1][0]}")
-                env2 = dict(env_)
-                del env2[arg[1][0]]
-                return ln, env2, [x for x in fr if x != ln]
+            moved_frame = self.moved_frame
             if segs[-2:] == ["ManuallyDrop", "new"] and len(args) == 1:
                 ln, env2, fr2 = moved_frame(args[0], env, frames)
                 return k(f"{ln}.manuallyDrop", FRAME, env2, fr2)
@@ -151,6 +190,11 @@ class T:
                     r = self.fresh("r")
                     return f"(RsB.bind (Gen.Fn.box_from_raw pa {t} fx) fun fx {r} =>\n{k(r, CELLS, env_, fr)})"
                 return self.E(args[0], env, frames, kf)
+            if segs[-2:] == ["Pin", "new_unchecked"] and len(args) == 1:
+                ln, env2, fr2 = moved_frame(args[0], env, frames)       # the handle moves into the `Pin`, armed
+                return k(f"{ln}.cells", CELLS, env2, fr2)
+            if segs[-2:] == ["Vec", "new_in"] and len(args) == 1:
+                return k("(Bx.Frame.arg [])", FRAME, env, frames)
             if segs == ["Box"] and len(args) == 1:
                 return self.E(args[0], env, frames, lambda t, ty, env_, fr: k(t, CELLS, env_, fr))
             if segs[-2:] == ["ptr", "read"] and len(args) == 1:
@@ -159,7 +203,7 @@ class T:
                         raise Untranslatable("ptr::read of a non-pointer")
                     return f"let fx := Bx.ptrRead {t} fx;\n{k(t, CELLS, env_, fr)}"
                 return self.E(args[0], env, frames, krd)
-            if segs[-1] in ("slice_from_raw_parts_mut", "from_raw_parts_mut") and len(args) == 2:
+            if segs[-1] in ("slice_from_raw_parts_mut", "from_raw_parts_mut", "from_raw_parts") and len(args) == 2:
                 return self.E(args[0], env, frames, lambda a, ta, e1, f1: self.E(args[1], e1, f1, lambda b, tb, e2, f2: k(f"({a}.take {b})", CELLS, e2, f2)))
             if segs[-2:] == ["ptr", "drop_in_place"] and len(args) == 1:
                 def kd(t, ty, env_, fr):
@@ -208,11 +252,22 @@ class T:
             if n == "self" and self.name == "drop":
                 params.append("(self_ : List Bx.Cell)")
                 env["self"] = ("self_", CELLS)
-            elif n == "self" or tt.startswith("Box<"):
+            elif n == "self" or tt.startswith("Box<") or tt.startswith("Vec<"):
                 ln = "self_" if n == "self" else n
                 params.append(f"({ln} : List Bx.Cell)")
                 fn = self.fresh(ln.rstrip("_"))
                 pre += f"let {fn} := Bx.Frame.arg {ln};\n"
+                env[n] = (fn, FRAME)
+                frames.append(fn)
+            elif tt in ("&'aBump", "&Bump"):
+                env[n] = (n, "bump")
+            elif tt == "T" and self.name == "from_iter_in":
+                params.append(f"({n} : List Bx.Cell)")
+                env[n] = (n, CELLS)
+            elif tt == "T":
+                params.append(f"({n} : List Bx.Cell)")
+                fn = self.fresh(n)
+                pre += f"let {fn} := Bx.Frame.arg {n};\n"
                 env[n] = (fn, FRAME)
                 frames.append(fn)
             elif tt.startswith("*mut") or tt.startswith("*const"):
